@@ -1,4 +1,4 @@
-\* C06 quick (safety): 2 nodes, 2 ids, clock 0..1, no tombstone collection, 3 CAS, 1 fault (garbage
+\* C06 quick (safety): 2 nodes, 2 ids, clock 0..1, no tombstone collection, 2 CAS, 1 fault (garbage
 \* packet, junk push/pull, partition, restart), blocking watcher on node 1.
 CONSTANTS
   N = 2
@@ -6,7 +6,7 @@ CONSTANTS
   MaxClock = 1
   Retention = 0
   T = 1
-  MaxCas = 3
+  MaxCas = 2
   MaxFaults = 1
   LiveStates = {"ACTIVE"}
   WatchNodes = {1, 2}
